@@ -101,6 +101,23 @@ func genSession(r *rand.Rand, i int) J {
 			}
 		}
 	}
+	// in some sessions every environment binds the same record u, here as a Go struct value and there as a pointer to
+	// one (the type has a method on the pointer only): what u answers is a matter of each render's own bindings,
+	// whatever the engine has seen before.  (Structs are outside the reference's universe: judged on determinism,
+	// independence and immutability.)
+	withAcct := i%7 == 3
+	if withAcct {
+		for j := range envs {
+			e := envs[j].([]any)
+			e = append(e, []any{bs("u"), vMap("n", vInt(3), "name", vStr("ann"))})
+			envs[j] = e
+			rp := reprs[j].(J)
+			rp["u"] = []string{"acct", "acctptr"}[j%2]
+		}
+		templates = append(templates,
+			[]any{nObj(eProp(eVar("u"), "Total")), nText("|"), nObj(eProp(eVar("u"), "Label")), nText("|"), nObj(eProp(eVar("u"), "name")), nText("|"), nObj(eProp(eVar("u"), "Name")), nText("|"), nObj(eProp(eVar("u"), "nosuch"))},
+			[]any{J{"t": "if", "branches": []any{J{"c": eProp(eVar("u"), "Total"), "body": []any{nText("has total")}}, J{"c": J{"t": "else"}, "body": []any{nText("none")}}}}, nObj(eFilter(eProp(eVar("u"), "n"), "plus", eLit(vInt(1))))})
+	}
 	ill := illFormedTemplates()
 	templates = append(templates, ill[r.Intn(len(ill))])
 	// an included file (registered in the engine's cache) that fails part-way for the environments whose q holds a
@@ -110,6 +127,9 @@ func genSession(r *rand.Rand, i int) J {
 	nops := 2 + r.Intn(10)
 	if r.Intn(4) == 0 {
 		nops = 12 + r.Intn(28)
+	}
+	if withAcct && nops < 16 {
+		nops += 14
 	}
 	ops := []any{}
 	for k := 0; k < nops; k++ {
@@ -122,11 +142,25 @@ func genSession(r *rand.Rand, i int) J {
 		}
 		if r.Intn(4) == 0 {
 			op["shuffle"] = true
+		} else if r.Intn(5) == 0 {
+			op["morph"] = true // (the caller's one bindings object, edited in place since the last render)
+		}
+		if withAcct && k%2 == 0 {
+			op["t"] = len(templates) - 5 + r.Intn(2) // (the two templates about u; after them: one ill-formed, two includes)
+		}
+		if withAcct && k < 3 {
+			// the pattern C03 names: these bindings, then other bindings, then these again
+			op["t"] = len(templates) - 5 + i%2
+			op["b"] = []int{1, 0, 1}[k]
 		}
 		ops = append(ops, op)
 	}
 	incBody := []any{nText("["), J{"t": "for", "tag": "for", "var": bs("x"), "coll": eVar("q"), "body": []any{nObj(eFilter(eLit(vInt(6)), "divided_by", eVar("x"))), nText(",")}}, nText("]")}
-	return J{"kind": "session", "templates": templates, "envs": envs, "reprs": reprs, "ops": ops, "cache": []any{[]any{bs("zz_inc_q.liq"), incBody}}}
+	c := J{"kind": "session", "templates": templates, "envs": envs, "reprs": reprs, "ops": ops, "cache": []any{[]any{bs("zz_inc_q.liq"), incBody}}}
+	if withAcct {
+		c["noref"] = true
+	}
+	return c
 }
 
 // sessions that iterate maps: the order is not decided by C11 but must be the same every time (C02)
@@ -159,6 +193,28 @@ func genMapSession(r *rand.Rand, i int) J {
 	c := J{"kind": "session", "templates": templates, "envs": []any{env}, "ops": ops}
 	if n <= 3 {
 		c["anyorder"] = n
+	}
+	if i%6 == 5 {
+		// the caller keeps one bindings object and edits it between renders: the map loses some keys and gains as many
+		// others, in place - what is rendered is what it holds now
+		pairsB := []any{}
+		for k := 0; k < n; k++ {
+			key := string(rune('a' + k))
+			if k%2 == 1 {
+				key = string(rune('n' + k))
+			}
+			pairsB = append(pairsB, []any{bs(key), vInt(k)})
+		}
+		c["envs"] = []any{env, []any{[]any{bs("m"), J{"k": "map", "v": pairsB}}, []any{bs("s"), vStr("v")}}}
+		for k, ox := range ops {
+			op := ox.(J)
+			op["b"] = (k / 2) % 2
+			delete(op, "shuffle")
+			if k%3 != 2 {
+				op["morph"] = true
+			}
+		}
+		return c
 	}
 	if i%5 == 4 {
 		// pointers two and three levels down inside otherwise plain arrays and maps: whatever turns the map, its pairs or
